@@ -12,5 +12,5 @@ CHECKS["C04"] = dict(
           "Non-trivial = a script with a delete that removed samples, a delete bound strictly between two stored samples, and a GC pass after which data files shrank; distinct by script hash."),
     assumptions=["a refused or failed multi-channel delete may leave each named channel either untouched or with [a,b) removed (the property does not promise atomicity); the refused index channel itself must be unchanged",
                  "when only a dependant's domain (not a sample) overlaps an index delete, either outcome is accepted"],
-    tests=[dict(name="TestC04", quick=dict(cases=500, shards=4), thorough=dict(cases=4000, shards=16, timeout=2400))],
+    tests=[dict(name="TestC04", quick=dict(cases=500, shards=8), thorough=dict(cases=4000, shards=16, timeout=2400))],
 )
